@@ -1,6 +1,7 @@
 #![allow(dead_code)]
 //! vcheck: bounded exhaustive checks for the properties in /verif/properties.jsonl
 mod common;
+mod engine;
 mod props;
 
 use common::{Ctx, Tier};
